@@ -9,7 +9,7 @@ CLAIMED = {
  "C01": ("proptest-generated planted-feasible conic problems x settings; independent re-evaluation of the documented termination test on the user's data",
          "Exploration: ~63k (quick) / 1.6M (thorough) generated problems with a planted strictly feasible primal-dual pair over all cone types, P forms, infinite-bound rows, bad scaling and a random settings point are solved; every Solved result is re-checked from solution.{x,s,z} alone against tol_feas / tol_gap_* and cone membership with an explicit rounding allowance.",
          SOLVE_NOTE, "DESIGN.md §4 C01"),
- "C02": ("proptest-generated planted-infeasible problems; Farkas certificate validity and the documented scale-dependent test re-evaluated on the user's data",
+ "C02": ("proptest-generated planted-infeasible problems; Farkas certificate validity, NaN objectives and the documented scale-dependent test re-evaluated on the user's data, on first solves and on re-solves of a live solver after update_q/update_b",
          "Exploration: planted strongly primal-/dual-infeasible problems (plus feasible controls) over all cones, rescaled, under random settings; every Primal/DualInfeasible result must have z in K*, b'z<0 (s in K, q'x<0), NaN objectives and pass the documented test with kappa taken from the observer hook.",
          SOLVE_NOTE, "DESIGN.md §4 C02"),
  "C03": ("proptest-generated problems x stress settings reaching all 10 terminal statuses; reported figures recomputed from returned vectors",
@@ -21,7 +21,7 @@ CLAIMED = {
  "C05": ("proptest-generated base problems and chains of semantics-preserving transformations with inverse maps (metamorphic), plus bitwise differential between repeated / concurrent runs",
          "Exploration: 6k (quick) / 200k (thorough) well-posed base problems, each with 1-4 variants built from variable/cone/row permutations, nonnegative splits, singleton-cone rotation, P form, objective scaling, presolve/equilibration toggles, backend and thread count; no two variants may fall in different verdict classes, mapped-back objectives must agree within gap tolerance plus an explicit weak-duality remainder, and identical calls (two fresh solvers, solve() twice, all variants concurrently on OS threads) must be bit-identical. Lost verdicts gate through a 0.5% rate.",
          SOLVE_NOTE + " Thread schedules are whatever the OS produces (no controlled scheduler).", "DESIGN.md §4 C05"),
- "C06": ("proptest-generated well-posed family G under default settings; distributional gate (binomial margin) on the Solved fraction and a frozen p95 iteration envelope",
+ "C06": ("proptest-generated well-posed family G under default settings; distributional gate (binomial margin) on the Solved fraction over the family and over its cost-balance sub-families, and frozen p95 iteration envelopes per cone stratum",
          "Exploration (statistical): 36k (quick) / 480k (thorough) planted strictly-feasible, full-column-rank instances over all cone mixtures are solved with default settings; alarm iff the Solved fraction is below 99.5% by more than 4.5 binomial standard deviations or p95(iterations) exceeds the frozen envelope of 27 (baseline on the repaired tree: 99.72% Solved, p95=18). Evidence lists per-status counts, percentiles and the worst cone classes; the replay file holds the non-solved instances.",
          SOLVE_NOTE + " The gate cannot see failures confined to <0.3% of the family.", "DESIGN.md §4 C06"),
  "C07": ("proptest-generated problems x line-search settings; invariant over the observed iterate history + bitwise prefix determinism against max_iter=k runs",
